@@ -5,6 +5,7 @@ package main
 import (
 	"fmt"
 	"go/types"
+	"os"
 	"runtime/debug"
 	"strings"
 
@@ -189,6 +190,13 @@ func (g *Gen) paramVal(st *State, name string, t types.Type) Val {
 
 // frameObligation: every heap location not named in assigns is unchanged at return (objects allocated by the function excepted).
 func (fr *Frame) frameObligation(st *State, site string) {
+	if os.Getenv("GOVC_FRAMESPLIT") != "" {
+		fr.frameFormula(st)
+		for k, gl := range fr.lastFrameParts {
+			fr.g.oblige("frame", site+"."+sanitize(k), st.path, gl, "assigns clause (key "+k+")")
+		}
+		return
+	}
 	fr.g.oblige("frame", site, st.path, fr.frameFormula(st), "assigns clause: nothing else is modified")
 }
 
@@ -245,6 +253,7 @@ func (fr *Frame) frameFormula(st *State) string {
 	}
 	top0 := fr.entry.heap.get(g, g.topKey())
 	var goals []string
+	fr.lastFrameParts = map[string]string{}
 	for _, k := range g.heapKeys() {
 		if k == "G:$top" || allowAll[k] {
 			continue
@@ -256,6 +265,7 @@ func (fr *Frame) frameFormula(st *State) string {
 		}
 		if strings.HasPrefix(k, "G:") {
 			goals = append(goals, "(= "+cur+" "+old+")")
+			fr.lastFrameParts[k] = "(= " + cur + " " + old + ")"
 			continue
 		}
 		r := g.fresh("fr")
@@ -264,6 +274,7 @@ func (fr *Frame) frameFormula(st *State) string {
 			conds = append(conds, "(not (= "+r+" "+a+"))")
 		}
 		goals = append(goals, "(forall (("+r+" Int)) (=> "+and(conds...)+" (= (select "+cur+" "+r+") (select "+old+" "+r+"))))")
+		fr.lastFrameParts[k] = goals[len(goals)-1]
 	}
 	return and(goals...)
 }
